@@ -41,7 +41,9 @@ def monStep (m : MSt) (bl : Block) : MSt × List String :=
     let f5 := if get "frames" "sent" == 2 * get "frames" "lastconnprocessed" then [] else ["prop=C16 reason=frames-lost-under-concurrent-requests"]
     let f6 := races.map fun r => "prop=C16 reason=data-race-" ++ "-vs-".intercalate (r.drop 1) ++
       (if m.cap == 1 then "-with-ring-capacity-1" else "")
-    ({ m with snaps := whole, races := races.length }, f1 ++ f2 ++ f3 ++ f4 ++ f5 ++ f6)
+    let f7 := if get "poll" "stalerefusals" != 0
+      then ["prop=C16 reason=snapshot-refused-as-no-new-frames-although-newer-frames-had-been-processed"] else []
+    ({ m with snaps := whole, races := races.length }, f1 ++ f2 ++ f3 ++ f4 ++ f5 ++ f6 ++ f7)
   | _ => (m, [])
 
 def monFinish (m : MSt) : List String :=
